@@ -30,7 +30,7 @@ REQUIRED = [
     "KV.C16.extSort_nodup", "KV.C16.extSort_unique", "KV.C16.extSort_eq_spec",
     "KV.C16.extSort_canon", "KV.C16.extSort_combine_unique", "KV.C16.extSort_combine_eq_spec",
     "KV.C16.codeSort_refines", "KV.C16.codeSort_sorted_perm", "KV.C16.sizedSort_perm_sorted",
-    "KV.C16.counting_suffix", "KV.C16.counting_prefix",
+    "KV.C16.counting_suffix", "KV.C16.counting_prefix", "KV.C16.codeSort_ok", "KV.C16.codeSort_correct",
 ]
 
 BOOST = ["-Wl,--no-as-needed", "-lboost_thread", "-lboost_system"]
